@@ -928,10 +928,39 @@ def count(ctx):
                     rv = st['rv']
                     if rv['k'] == 'bin' and rv['op'] in ('AddWithOverflow', 'Add') and is_place(rv['a']) and not op_place(rv['a'])['p']:
                         accs.add(op_local(rv['a']))
+            # inside a closure the counter is a captured `&mut usize`: every write to it must be `*n = *n + x`
+            if fb.kind == 'Closure':
+                for b in sorted(fb.live_blocks()):
+                    for st in fb.stmts(b):
+                        lhs, rv = st['lhs'], st['rv']
+                        if list(lhs['p']) != ['*'] or fb.local_ty(lhs['l']) != '&mut usize' or rv['k'] != 'use' or not is_place(rv['a']):
+                            continue
+                        rd = lib.single_def(fb, lhs['l'])
+                        if rd is None or rd.kind != 'assign' or rd.rv['k'] != 'use' or not is_place(rd.rv['a']) or op_place(rd.rv['a'])['l'] != 1:
+                            continue      # not a captured counter
+                        src = op_place(rv['a'])
+                        sd = lib.single_def(fb, src['l'])
+                        acc_ok = sd is not None and sd.kind == 'assign' and sd.rv['k'] == 'bin' and sd.rv['op'] in ('AddWithOverflow', 'Add')
+                        n += 1
+                        ctx.check(acc_ok, name, 'accumulator not overwritten',
+                                  'the byte counter captured by a closure of %s::write is overwritten at line %d instead of added to: '
+                                  'write returns less than it wrote' % (name, st['ln']), 'captured counter only added to', fb.where(st['ln']))
+            # the counter is also whatever local the returned Ok(..) carries, even when every `+=` happens in a closure
+            if fb.kind != 'Closure':
+                for b in sorted(fb.live_blocks()):
+                    for st in fb.stmts(b):
+                        rv = st['rv']
+                        if rv['k'] == 'agg' and rv.get('adt') == 'std::result::Result' and rv['variant'] == 'Ok' and st['lhs']['l'] == 0 \
+                                and rv['ops'] and is_place(rv['ops'][0]) and fb.local_ty(op_local(rv['ops'][0])) == 'usize':
+                            cur, _d = lib.resolve_copy(fb, op_local(rv['ops'][0]))
+                            if cur is not None and fb.var_name(cur):
+                                accs.add(cur)
             for acc in accs:
-                ds = [d for d in fb.defs().get(acc, []) if d.kind in ('assign', 'call') and d.via is None]
+                ds = [d for d in fb.defs().get(acc, []) if d.kind in ('assign', 'call', 'mutarg') and d.via is None]
                 plain = []
                 for d in ds:
+                    if d.kind == 'mutarg':
+                        continue      # a closure / callee adding to the counter through `&mut n`
                     if d.kind == 'assign' and d.rv['k'] == 'use' and is_place(d.rv['a']):
                         src = op_place(d.rv['a'])
                         # `n = move _38.0` after AddWithOverflow is the accumulation itself
@@ -944,6 +973,8 @@ def count(ctx):
                     others = [d for d in ds if d is not p]
                     reach_p = [d for d in others if (d.b != p.b and p.b in fb.reach(fb.succs[d.b])) or
                                (d.b == p.b and d.i is not None and p.i is not None and d.i < p.i)]
+                    if fb.is_param(acc):
+                        reach_p = reach_p or [p]      # the parameter of a fold already carries the running total
                     n += 1
                     ctx.check(not reach_p, name, 'accumulator not overwritten',
                               'the byte counter `%s` of %s::write is overwritten at line %d after it already holds counts: '
